@@ -42,8 +42,16 @@ class C20(object):
             if e['form'] == 'scalar':
                 e['form'] = 'list'
                 e['text'] = repr(e['values'])
+        xs = [s_['name'] for s_ in spec['simul']]
         for s in spec['simul']:
             spec['ics'][s['name']] = G.nice(rng, -3.0, 9.0)
+            if spec['rho'] <= 0.5 and rng.random() < 0.3:
+                # the block language offers every name of the math module (Lipschitz constants <= 0.05)
+                a, b_ = rng.choice(xs), rng.choice(xs)
+                s['nl'] = rng.choice(['0.05*tanh({a})', '0.05*log1p(abs({a}))', '0.05*atan2({a}, 1.0 + abs({b}))',
+                                      '0.05*hypot({a}, 1.0)/(1.0 + abs({a}))', '0.05*sinh(0.1*{a})/(1 + {a}*{a})',
+                                      '0.05*erf({a})', '0.05*expm1(-abs({a}))', '0.02*fabs({a}) + 0.01*degrees(0.1)',
+                                      '0.05*copysign(1.0, {a})*log2(1 + abs({a}))/(1 + abs({a}))']).format(a=a, b=b_)
         for c in spec['consts']:
             if rng.random() < 0.6:
                 spec['ics'][c['name']] = c['value'] + rng.choice([1.0, -0.5, 2.0])   # k=0 differs from the literal
